@@ -51,25 +51,28 @@ var gcRoots = []string{"fromCtyNumber", "fromCtyBool", "fromCtyString"}
 type gcShape int
 
 const (
-	gcBool  gcShape = iota
-	gcInt           // int
-	gcI64           // int64
-	gcU64           // uint64
-	gcConst         // untyped integer constant
-	gcF64           // float64
-	gcF32           // float32
-	gcAcc           // big.Accuracy
-	gcKind          // reflect.Kind
-	gcNum           // *big.Float
-	gcBigInt        // *big.Int
-	gcGoTy          // reflect.Type
-	gcNamed         // a package-level reflect.Type variable
-	gcRV            // a reflect.Value other than the target
-	gcTarget        // the target reflect.Value (parameter)
-	gcVal           // cty.Value
-	gcPath          // cty.Path (erased)
-	gcStr           // string
-	gcNil           // the literal nil
+	gcBool   gcShape = iota
+	gcInt            // int
+	gcI64            // int64
+	gcU64            // uint64
+	gcConst          // untyped integer constant
+	gcF64            // float64
+	gcF32            // float32
+	gcAcc            // big.Accuracy
+	gcKind           // reflect.Kind
+	gcNum            // *big.Float
+	gcBigInt         // *big.Int
+	gcGoTy           // reflect.Type
+	gcNamed          // a package-level reflect.Type variable
+	gcRV             // a reflect.Value other than the target
+	gcTarget         // the target reflect.Value (parameter)
+	gcVal            // cty.Value
+	gcPath           // cty.Path (erased)
+	gcStr            // string
+	gcNil            // the literal nil
+	gcCtyTy          // cty.Type (d18b)
+	gcTyList         // []cty.Type (d18b)
+	gcField          // target.Field(i): a field of the target, decoded in place (d18b)
 )
 
 var gcShapeNames = map[gcShape]string{gcBool: "bool", gcInt: "int", gcI64: "int64", gcU64: "uint64", gcConst: "untyped constant",
@@ -101,6 +104,10 @@ func gcLeanType(sh gcShape) string {
 		return "Value"
 	case gcStr:
 		return "String"
+	case gcCtyTy:
+		return "Ty"
+	case gcTyList:
+		return "List Ty"
 	}
 	panic("gcLeanType")
 }
@@ -228,6 +235,7 @@ type gcUnit struct {
 	text       string
 	pos        string
 	inProgress bool
+	hasRec     bool // d18b: takes the recursive call fromCtyValue as its first parameter `rec_`
 }
 
 type gcTr struct {
@@ -263,6 +271,8 @@ type gcCtx struct {
 	u      *gcUnit
 	target string // Go name of the target parameter
 	nk     int
+	inLoop int               // d18b: depth of `for … range` bodies being translated
+	fields map[string]string // d18b: Go name of a `target.Field(e)` variable ↦ the Lean index expression
 }
 
 type gcV struct {
@@ -303,9 +313,13 @@ func (t *gcTr) translate(name string, fd *ast.FuncDecl) *gcUnit {
 	}
 	u := &gcUnit{name: name, inProgress: true}
 	t.units[name] = u
-	c := &gcCtx{t: t, u: u}
+	c := &gcCtx{t: t, u: u, fields: map[string]string{}}
 	en := gcEnv{}
 	var lparams []string
+	if gcRecFuncs[name] {
+		u.hasRec = true
+		lparams = append(lparams, "(rec_ : GoctyGo.Rec)")
+	}
 	for _, f := range fd.Type.Params.List {
 		sh := gcTypeShape(f.Type, src(f.Type))
 		if len(f.Names) == 0 {
@@ -479,6 +493,9 @@ func (c *gcCtx) join(s ast.Stmt, nfall int, en gcEnv, after func(gcEnv) string, 
 func (c *gcCtx) stmts(list []ast.Stmt, en gcEnv, k func(gcEnv) string) string {
 	if len(list) == 0 {
 		return k(en)
+	}
+	if out, ok := c.shapeStmts(list, en, k); ok { // d18b (translate_gocty_shape.go)
+		return out
 	}
 	s, rest := list[0], list[1:]
 	next := func(e gcEnv) string { return c.stmts(rest, e, k) }
@@ -816,6 +833,10 @@ func gcPureArg(e ast.Expr) {
 		}
 	case *ast.ParenExpr:
 		gcPureArg(x.X)
+	case *ast.CallExpr:
+		if !gcPureCalls[src(e)] { // d18b: calls that were evaluated just before and can not panic
+			dieAt(e, "error argument %s", src(e))
+		}
 	case *ast.UnaryExpr:
 		if x.Op != token.SUB && x.Op != token.NOT {
 			dieAt(e, "error argument %s", src(e))
@@ -832,6 +853,9 @@ func (c *gcCtx) ret(s *ast.ReturnStmt, en gcEnv) string {
 	}
 	r := s.Results[0]
 	if id, ok := r.(*ast.Ident); ok && id.Name == "nil" {
+		if c.inLoop > 0 {
+			dieAt(s, "return nil inside a loop")
+		}
 		return "(Res.ok " + c.targetState() + ")"
 	}
 	call, ok := r.(*ast.CallExpr)
@@ -871,7 +895,7 @@ func (c *gcCtx) ret(s *ast.ReturnStmt, en gcEnv) string {
 			p := u.params[i]
 			switch p.sh {
 			case gcPath:
-				if id, ok := a.(*ast.Ident); !ok || en[id.Name] != gcPath {
+				if !gcIsPathExpr(a, en) {
 					dieAt(a, "path argument %s", src(a))
 				}
 			case gcTarget:
@@ -884,6 +908,12 @@ func (c *gcCtx) ret(s *ast.ReturnStmt, en gcEnv) string {
 				bs = append(bs, b...)
 				args = append(args, c.coerce(a, v, p.sh))
 			}
+		}
+		if u.hasRec {
+			if !c.u.hasRec {
+				dieAt(call, "%s needs the recursive decoder, which %s does not have", u.name, c.u.name)
+			}
+			args = append([]string{"rec_"}, args...)
 		}
 		return wrap(bs, "("+u.name+" "+strings.Join(args, " ")+")")
 	}
@@ -1018,6 +1048,9 @@ func (c *gcCtx) call(call *ast.CallExpr, en gcEnv, want int) ([]bind, []gcV) {
 			dieAt(call, "%d results wanted from %s", want, src(call.Fun))
 		}
 		return bs, []gcV{v}
+	}
+	if bs, vs, ok := c.shapeCall(call, en, want); ok { // d18b (translate_gocty_shape.go)
+		return bs, vs
 	}
 	switch f := call.Fun.(type) {
 	case *ast.Ident:
@@ -1192,6 +1225,12 @@ func translateGoctyFns(repo, leanDir, hdr string) int {
 			t.translate(r, fd)
 		}
 	}
+	nOld := len(t.out)
+	apiOld := map[string]bool{}
+	for k := range t.usedAPI {
+		apiOld[k] = true
+	}
+	defer writeGoctyShapeFns(t, leanDir, hdr, nOld, apiOld) // d18b: the shape checks, second file (translate_gocty_shape.go)
 	var lb strings.Builder
 	lb.WriteString(hdr)
 	lb.WriteString("-- Translation of the scalar decoders of cty/gocty/out.go (extract/translate_gocty.go); tied to the hand-written model\n")
@@ -1215,10 +1254,10 @@ func translateGoctyFns(repo, leanDir, hdr string) int {
 	}
 	lb.WriteString("--   math.MinIntN/MaxIntN/MaxUintN ↦ their values (the Go toolchain's); reflect.<Kind> ↦ GoctyGo.Kind.k<Kind>; big.Exact/Below/Above ↦ GoctyGo.Accuracy\n")
 	lb.WriteString("import CtyModel.GoctyGo\nset_option linter.unusedVariables false\nnamespace CtyModel.Generated.GoctyFns\n\n")
-	for _, u := range t.out {
+	for _, u := range t.out[:nOld] {
 		lb.WriteString(u.text + "\n")
 	}
 	lb.WriteString("end CtyModel.Generated.GoctyFns\n")
 	writeIfChanged(filepath.Join(leanDir, "GoctyFns.lean"), lb.String())
-	return len(t.out)
+	return nOld
 }
